@@ -19,12 +19,14 @@ type c03Edge struct {
 	Label    string `json:"label"`    // pos neg agg
 	Temporal bool   `json:"temporal"` // mention wrapped in a TemporalLiteral
 	Operator bool   `json:"operator"` // ... with a temporal operator
+	Rule     int    `json:"rule"`     // which of the head's plain rules carries a pos/neg mention
 }
 
 type c03Case struct {
 	N     int       `json:"n"`
 	Edges []c03Edge `json:"edges"`
 	Enum  int       `json:"enum"` // >=0: index in the exhaustive 3-predicate enumeration
+	Perm  int64     `json:"perm"` // != 0: the rules are shuffled with this PRNG seed
 }
 
 type c03 struct{}
@@ -44,7 +46,7 @@ func (c03) Cases(tier string) int {
 func (c03) Describe() core.Info {
 	return core.Info{
 		Level: "exploration",
-		Rule: "direct calls to analysis.Stratify on synthetic rule sets realising a chosen labelling {absent, positive, negative-by-negation, negative-by-aggregation} of every ordered predicate pair (self loops included), each positive/aggregated mention either plain or inside a TemporalLiteral (with or without operator); 3-8 predicates; every graph submitted 3 times (map-order variation). The thorough tier first enumerates all 3^9 labellings on 3 predicates (observed counter enumerated_3pred_labellings; negative realisation and temporal wrapping drawn from the PRNG), then samples. Oracle: own Tarjan SCC over the generated edge list; failure expected iff a negative edge lies inside an SCC; on success layers must be a partition containing every rule head, list and map must agree, every dependency must point to the same or an earlier layer (strictly earlier if negative), SCC mates share a layer. Non-trivial: >= 2 SCCs or a negative edge; distinct by labelled graph.",
+		Rule: "direct calls to analysis.Stratify on synthetic rule sets realising a chosen labelling {absent, positive, negative-by-negation, negative-by-aggregation} of every ordered predicate pair (self loops included), each positive/aggregated mention either plain or inside a TemporalLiteral (with or without operator); in half of the sampled graphs 1-3 pairs are mentioned again with another polarity (same rule, another rule of the same head, or the aggregating rule) and in half the rule list is shuffled, so that the strongest mention may come first or last; 3-8 predicates; every graph submitted 3 times (map-order variation). The thorough tier first enumerates all 3^9 labellings on 3 predicates (observed counter enumerated_3pred_labellings; negative realisation and temporal wrapping drawn from the PRNG), then samples. Oracle: own Tarjan SCC over the generated edge list; failure expected iff a negative edge lies inside an SCC; on success layers must be a partition containing every rule head, list and map must agree, every dependency must point to the same or an earlier layer (strictly earlier if negative), SCC mates share a layer. Non-trivial: >= 2 SCCs or a negative edge; distinct by labelled graph.",
 		Assumptions: []string{"negation inside a temporal literal is not producible by the parser and not generated"},
 	}
 }
@@ -96,6 +98,27 @@ func (c03) Gen(r *rand.Rand, tier string, i int) any {
 			}
 		}
 	}
+	// The same ordered pair may be mentioned several times with different polarity, in one rule
+	// or in different rules, and in any order: the strongest mention decides.
+	if len(c.Edges) > 0 && r.Intn(2) == 0 {
+		for k := 1 + r.Intn(3); k > 0; k-- {
+			e := c.Edges[r.Intn(len(c.Edges))]
+			e.Label = []string{"pos", "neg", "agg"}[r.Intn(3)]
+			e.Temporal, e.Operator = false, false
+			if e.Label != "neg" && r.Intn(3) == 0 {
+				e.Temporal = true
+				e.Operator = r.Intn(2) == 0
+			}
+			e.Rule = r.Intn(3)
+			c.Edges = append(c.Edges, e)
+		}
+		if r.Intn(2) == 0 {
+			r.Shuffle(len(c.Edges), func(a, b int) { c.Edges[a], c.Edges[b] = c.Edges[b], c.Edges[a] })
+		}
+	}
+	if r.Intn(2) == 0 {
+		c.Perm = 1 + r.Int63n(1<<40)
+	}
 	return c
 }
 
@@ -133,21 +156,34 @@ func c03Program(c c03Case) analysis.Program {
 	for i := 0; i < c.N; i++ {
 		head := ast.Atom{Predicate: c03Pred(i), Args: []ast.BaseTerm{x}}
 		plain := []ast.Term{ast.Atom{Predicate: edb, Args: []ast.BaseTerm{x}}}
+		extra := map[int][]ast.Term{}
 		var agg []ast.Term
 		for _, e := range c.Edges {
 			if e.From != i {
 				continue
 			}
+			var lit ast.Term
 			switch e.Label {
 			case "pos":
-				plain = append(plain, mention(e))
+				lit = mention(e)
 			case "neg":
-				plain = append(plain, ast.NegAtom{Atom: ast.Atom{Predicate: c03Pred(e.To), Args: []ast.BaseTerm{x}}})
+				lit = ast.NegAtom{Atom: ast.Atom{Predicate: c03Pred(e.To), Args: []ast.BaseTerm{x}}}
 			case "agg":
 				agg = append(agg, mention(e))
+				continue
+			}
+			if e.Rule == 0 {
+				plain = append(plain, lit)
+			} else {
+				extra[e.Rule] = append(extra[e.Rule], lit)
 			}
 		}
 		prog.Rules = append(prog.Rules, ast.Clause{Head: head, Premises: plain})
+		for k := 1; k <= 2; k++ {
+			if len(extra[k]) > 0 {
+				prog.Rules = append(prog.Rules, ast.Clause{Head: head, Premises: append([]ast.Term{ast.Atom{Predicate: edb, Args: []ast.BaseTerm{x}}}, extra[k]...)})
+			}
+		}
 		if len(agg) > 0 {
 			cv := ast.Variable{Symbol: "C"}
 			tr := &ast.Transform{Statements: []ast.TransformStmt{
@@ -155,6 +191,9 @@ func c03Program(c c03Case) analysis.Program {
 				{Var: &cv, Fn: ast.ApplyFn{Function: ast.FunctionSym{Symbol: "fn:count", Arity: 0}}}}}
 			prog.Rules = append(prog.Rules, ast.Clause{Head: ast.Atom{Predicate: c03Pred(i), Args: []ast.BaseTerm{cv}}, Premises: agg, Transform: tr})
 		}
+	}
+	if c.Perm != 0 {
+		rand.New(rand.NewSource(c.Perm)).Shuffle(len(prog.Rules), func(a, b int) { prog.Rules[a], prog.Rules[b] = prog.Rules[b], prog.Rules[a] })
 	}
 	return prog
 }
@@ -301,7 +340,7 @@ func (c03) Run(cs any) core.Result {
 	c := cs.(c03Case)
 	var res core.Result
 	res.Evals = 3
-	res.Key = core.HashKey(fmt.Sprint(c.N, c.Edges))
+	res.Key = core.HashKey(fmt.Sprint(c.N, c.Edges, c.Perm))
 	adj := make([][]int, c.N)
 	hasNeg, hasTemporal := false, false
 	for _, e := range c.Edges {
